@@ -87,16 +87,16 @@ class E2:
         if viol:
             seen = {}
             for v in viol:
-                seen.setdefault((v['kind'], v['msg'][:80], v['where']), v)
+                seen.setdefault((v['kind'], v['msg'][:80], v['where'], v.get('failed_alloc'), v.get('io_failed'), v.get('io_fail_op')), v)
             uniq = list(seen.values())
             confirmed = None; reports = []
-            for v in uniq[:6]:
+            for v in uniq[:12]:
                 rep = self._native(d, v, extra) if self.native_replay else {'verdict': 'not-replayed'}
                 reports.append({'kind': v['kind'], 'msg': v['msg'], 'where': v['where'], 'replay': rep.get('verdict'), 'out': rep.get('output', '')[-400:]})
                 if rep.get('verdict') == 'reproduced' and confirmed is None:
                     confirmed = (v, rep)
             payload = {'property': pid, 'obligation': self.name, 'engine': self.engine, 'harness': self.harness, 'defines': self.defines + extra,
-                       'violations': [{k: v[k] for k in ('kind', 'msg', 'where', 'model', 'choices', 'failed_alloc', 'io_failed', 'io_fail_op', 'notes') if k in v} for v in uniq[:10]],
+                       'violations': [{k: v[k] for k in ('kind', 'msg', 'where', 'model', 'choices', 'failed_alloc', 'io_failed', 'io_fail_op', 'notes') if k in v} for v in uniq[:40]],
                        'native_replay': reports, 'total_violating_paths': len(viol)}
             path = save_replay(pid, self.name, payload)
             if confirmed:
